@@ -208,3 +208,37 @@ Proof.
   exists (Fixed 7 3), kind_change_history.
   split; [reflexivity|]. vm_compute. discriminate.
 Qed.
+
+(* ====================================================================== *)
+(** * KNOWN FINDING: a frame that depends on the environment beyond the rendered size
+
+    The theorems above take the formatting of a frame to be a function of (frame number,
+    rendered size).  For the graphics-based styles the render is made for rendered size x
+    CELL SIZE pixels ([_get_render_size], kitty.py / iterm2.py): the cell size enters the frame
+    itself.  The faithful model is [fmt_pix] (the frame records the pixel size) under the
+    code's stamp [stamp_rendered]: a cell-size change that leaves the rendered size alone — always
+    so under a FIXED setting — leaves the stale entries valid. *)
+Definition fmt_pix (k : nat) (ge : setting * env3) : res Z :=
+  let z := ex_rs (fst ge) (snd ge) in
+  ex_fmt k (fst z * fst (cell_size (snd ge)), snd z * snd (cell_size (snd ge))).
+
+Lemma cell_size_only_change_refuted :
+  exists (g0 : setting) (e' : env3) (ops : list (eop setting env3)),
+    ex_rs g0 e' = ex_rs g0 e_a /\ term_size e' = term_size e_a /\ cell_ratio e' = cell_ratio e_a /\
+    trace fmt_pix (stamp_rendered (@pair Z Z) ex_dyn ex_hash) 2 true (init Z (-1) 0 (g0, e_a)) (lower2 g0 e_a ops) <>
+    trace fmt_pix (stamp_rendered (@pair Z Z) ex_dyn ex_hash) 2 false (init Z (-1) 0 (g0, e_a)) (lower2 g0 e_a ops).
+Proof.
+  exists (Fixed 7 3), (with_cell e_a (5, 20)), (env_change_history (with_cell e_a (5, 20))).
+  repeat split. vm_compute. discriminate.
+Qed.
+
+(** the stamp hash((rendered size, pixel size of the render)) sees it *)
+Definition stamp_rendered_pix (ge : setting * env3) : Z :=
+  let z := ex_rs (fst ge) (snd ge) in
+  ex_hash z * 1000000 + ex_hash (fst z * fst (cell_size (snd ge)), snd z * snd (cell_size (snd ge))).
+
+Example cell_size_only_change_seen_by_pixel_stamp :
+  let ops := env_change_history (with_cell e_a (5, 20)) in
+  trace fmt_pix stamp_rendered_pix 2 true (init Z (-1) 0 (Fixed 7 3, e_a)) (lower2 (Fixed 7 3) e_a ops) =
+  trace fmt_pix stamp_rendered_pix 2 false (init Z (-1) 0 (Fixed 7 3, e_a)) (lower2 (Fixed 7 3) e_a ops).
+Proof. vm_compute. reflexivity. Qed.
